@@ -315,8 +315,25 @@ def r6(ctx):
     C01.ACCESSORS = C01.TABLE_ACCESSORS
     C01.r8(ctx)   # ... and leaving a nested fs scope puts the outer scope's hook back (the guard restores the value it saved, on every path)
     k = C01.scoped_cell_writers(ctx, R, keys={"turmoil_fs::CURRENT_CORRUPTION"})
+    # the step installs the hook for every host tick, whatever the filesystem's settings look like when the tick begins: the host can turn
+    # corruption on (FsContext::current(|c| c.fs.corruption_probability = ..)) and read in the same step
+    st = ctx.w.bodies.get("turmoil::sim::Sim::step")
+    n = 0
+    for fb in (ctx.w.family(st.id) if st else []):
+        for bb, i, s2 in fb.all_stmts():
+            r = s2["r"]
+            if i == "term" or r["k"] != "agg" or r.get("adt") != "turmoil_fs::EnterCtx" or "on_corruption" not in list(r.get("fields", [])):
+                continue
+            op = r["ops"][list(r["fields"]).index("on_corruption")]
+            og = origin(fb, op)
+            always = og["k"] == "agg" and og["r"].get("variant") == "Some"
+            n += 1
+            ctx.inst(R, f"step:installs-the-hook#{n}", always, s2["s"], "every host tick runs with the corruption hook installed" if always else
+                     "Sim::step hands turmoil_fs::enter a hook that is not `Some(..)` on every path (it depends on what the filesystem looked like before the tick): corruption "
+                     "switched on by the host during a step fires with no hook installed - the matching FsCorruption barrier is told nothing until the next tick")
+    ctx.inst(R, "step:enters-fs-with-hook", n >= 1, st.span if st else "", "Sim::step builds the EnterCtx" if n else "no turmoil_fs::EnterCtx with a hook is built in Sim::step: re-derive")
     ctx.inst(R, "hook:accessors-found", k >= 2, "", f"{k} accessors of the corruption hook analysed" if k >= 2 else "the corruption hook's accessors (enter, fire_corruption) were not found: re-derive")
-    ctx.floor(R, 3)
+    ctx.floor(R, 5)
 
 
 def r7(ctx):
